@@ -2,6 +2,8 @@ import ClusterVerif.Lemmas.C01
 import ClusterVerif.Lemmas.C01Commit
 import ClusterVerif.Gen.C01Commit
 import ClusterVerif.Model.C01Gate
+import ClusterVerif.Lemmas.C01Shutdown
+import ClusterVerif.Gen.C01Shutdown
 
 /-!
 # C01 — Raft: every replica's pinset equals the committed pin/unpin sequence
@@ -661,5 +663,136 @@ example : gatedLog 1 [⟨.pin (pinCid 1), [.selfApplyOk]⟩, ⟨.pin originsPin,
                       ⟨.unpin (pinCid undefCid), [.fwdOk]⟩, ⟨.unpin (pinCid 1), [.fwdErr, .fwdOk]⟩,
                       ⟨.pin (pinCid 2), [.fwdErr, .fwdErr]⟩] =
     [.pin (pinCid 1), .unpin (pinCid 1)] := by decide
+
+/-! ## Round 8 — the shutdown snapshot and the offline read (`consensus/raft/raft.go`)
+
+`raft.OfflineState` reads the newest snapshot of the data folder and nothing else (no log replay), so what a peer
+applied reaches a reader of its disk only through the snapshot `raftWrapper.Shutdown` takes. The code is
+`Shut.takesSnapshot` / `Shut.shutEv` over the shape regenerated from raft.go (`Shut.Gen.shape`) and the context
+`Shutdown` is called with. -/
+
+/-- the translator's reading of raft.go is the shape the statements below are about -/
+theorem extracted_shutdown : Shut.Gen.shape = Shut.expected := by decide
+
+/-- raft.go as it is: `Shutdown(ctx)` asks Raft for a snapshot whatever context it is called with — live,
+    deadline-bound, expired, already cancelled — and whether or not Raft had caught up: the replica event
+    is the model's `shutdown` for every input -/
+theorem shutdown_snapshots_every_ctx (ctx : Shut.Ctx) (cu : Bool) :
+    Shut.takesSnapshot Shut.Gen.shape ctx cu = true ∧ Shut.shutEv Shut.Gen.shape ctx cu = .shutdown := by
+  rw [extracted_shutdown]
+  cases ctx <;> cases cu <;> decide
+
+/-- every replica of every reachable state: no stored or pending snapshot is labelled beyond what its Raft
+    applied, and a replica whose FSM was never initialized has none -/
+theorem reachable_snapBound (ops : List Op) (n : Nat) (evs : List (Nat × Ev)) :
+    ∀ r ∈ run ops (initSys n) evs, Shut.snapBound r :=
+  Shut.run_sbound ops evs _ (Shut.sbound_init n)
+
+/-- EVERY committed sequence, EVERY schedule, every peer, every context: after `Shutdown` the peer is down and a
+    read of its data folder (`OfflineState`) shows exactly what the peer served when it was shut down (the
+    shutdown snapshot is the newest one, whatever snapshots — late-persisted, installed — the folder holds) -/
+theorem shutdown_offline_exact (ops : List Op) (n : Nat) (evs : List (Nat × Ev)) (ctx : Shut.Ctx) (cu : Bool) :
+    ∀ r ∈ run ops (initSys n) evs, ∀ m, r.view = .pins m →
+      (stepR ops r none (Shut.shutEv Shut.Gen.shape ctx cu)).1.up = false ∧
+      (stepR ops r none (Shut.shutEv Shut.Gen.shape ctx cu)).1.offlineView = m ∧
+      (r.canSnapshot = true → (stepR ops r none (Shut.shutEv Shut.Gen.shape ctx cu)).1.offlineIdx = r.applied) := by
+  intro r hr m hv
+  obtain ⟨hb1, _, hb3⟩ := reachable_snapBound ops n evs r hr
+  rw [(shutdown_snapshots_every_ctx ctx cu).2]
+  unfold Replica.view at hv
+  by_cases hu : r.up = true
+  · simp only [hu, Bool.not_true, Bool.false_eq_true, if_false] at hv
+    by_cases hi : r.initialized = true
+    · simp only [hi, Bool.not_true, Bool.false_eq_true, if_false] at hv
+      by_cases hinc : r.inconsistent = true
+      · simp only [hinc, if_true] at hv
+        cases hv
+      · have hinc' : r.inconsistent = false := by simpa using hinc
+        simp only [hinc', Bool.false_eq_true, if_false] at hv
+        have hm : r.store = m := by injection hv
+        have hc : r.canSnapshot = true := by simp [Replica.canSnapshot, hi, hinc']
+        unfold stepR
+        dsimp only
+        simp only [hu, hc, Bool.not_true, Bool.false_eq_true, if_false, if_true]
+        refine ⟨rfl, ?_, fun _ => ?_⟩
+        · unfold Replica.offlineView down
+          dsimp only
+          rw [Shut.newest_cons_of_bound _ _ _ hb1]
+          exact hm
+        · unfold Replica.offlineIdx down
+          dsimp only
+          rw [Shut.newest_cons_of_bound _ _ _ hb1]
+          rfl
+    · have hi' : r.initialized = false := by simpa using hi
+      simp only [hi', Bool.not_false, if_true] at hv
+      have hm : m = [] := by injection hv with h; exact h.symm
+      have hs : r.snaps = [] := (hb3 hi').1
+      have hc : r.canSnapshot = false := by simp [Replica.canSnapshot, hi']
+      unfold stepR
+      dsimp only
+      simp only [hu, hc, Bool.not_true, Bool.false_eq_true, if_false]
+      refine ⟨rfl, ?_, fun h => by cases h⟩
+      unfold Replica.offlineView down
+      dsimp only
+      rw [hs, hm]
+      rfl
+  · have hu' : r.up = false := by simpa using hu
+    simp only [hu', Bool.not_false, if_true] at hv
+    cases hv
+
+/-- for every history of LogPin/LogUnpin calls and every schedule: a caught-up peer that is shut down — with ANY
+    context — leaves a data folder whose offline read is exactly the result of the whole committed sequence:
+    every acknowledged pin is in it, every acknowledged unpin is gone (no hypothesis) -/
+theorem clean_shutdown_offline_caught_up (retries : Nat) (subs : List Submission) (n : Nat) (evs : List (Nat × Ev))
+    (ctx : Shut.Ctx) (cu : Bool) :
+    ∀ r ∈ run (gatedLog retries subs) (initSys n) evs, r.up = true →
+      r.applied = (gatedLog retries subs).length →
+      (stepR (gatedLog retries subs) r none (Shut.shutEv Shut.Gen.shape ctx cu)).1.offlineView = replay (gatedLog retries subs) := by
+  intro r hr hu ha
+  have hv := caught_up_exact retries subs n evs r hr hu ha
+  exact (shutdown_offline_exact _ n evs ctx cu r hr _ hv).2.1
+
+/-- the alternative the seeded edit of round 8 implements (wait bound to the caller's context AND only a timeout
+    "snapshots anyway"): a Shutdown with an already-cancelled context takes no snapshot, and the offline read misses an
+    acknowledged pin — it shows the state of the previous snapshot -/
+theorem ctx_bound_shutdown_loses_acknowledged :
+    Shut.takesSnapshot Shut.ctxBound .cancelled true = false ∧
+    (((run [Op.pin (pinCid 1), .pin (pinCid 2)] (initSys 1) [(0, .apply), (0, .snapBegin), (0, .snapPersist), (0, .apply)])[0]?).map
+        (fun r => (stepR [Op.pin (pinCid 1), .pin (pinCid 2)] r none (Shut.shutEv Shut.ctxBound .cancelled true)).1.offlineView)) =
+      some (replay [Op.pin (pinCid 1)]) ∧
+    replay [Op.pin (pinCid 1)] ≠ replay [Op.pin (pinCid 1), .pin (pinCid 2)] := by
+  decide
+
+/-- … while with every other context that edit behaves like the code (why it passes tests that shut down with
+    `context.Background()`), and each of its two sites alone is harmless for every context -/
+theorem ctx_bound_needs_both_sites_and_a_cancelled_ctx (cu : Bool) :
+    (∀ ctx, ctx ≠ Shut.Ctx.cancelled → Shut.takesSnapshot Shut.ctxBound ctx cu = true) ∧
+    (∀ ctx, Shut.takesSnapshot Shut.ctxBoundWaitOnly ctx cu = true) ∧
+    (∀ ctx, Shut.takesSnapshot Shut.deadlineOnlyArm ctx cu = true) := by
+  refine ⟨?_, ?_, ?_⟩
+  · intro ctx h; cases ctx <;> cases cu <;> first | decide | exact absurd rfl h
+  · intro ctx; cases ctx <;> cases cu <;> decide
+  · intro ctx; cases ctx <;> cases cu <;> decide
+
+/-- a shape the translator does not recognise, or a Shutdown that does not call `snapshotOnShutdown`, never
+    snapshots: unknown code is never vouched for -/
+theorem unrecognised_shutdown_never_snapshots (sh : Shut.Shape) (ctx : Shut.Ctx) (cu : Bool)
+    (h : sh.recognised = false ∨ sh.called = false) : Shut.takesSnapshot sh ctx cu = false := by
+  unfold Shut.takesSnapshot
+  rcases h with h | h <;> simp [h]
+
+/-- the hypotheses of `shutdown_offline_exact` are met by a non-trivial history (an older, late-persisted snapshot
+    in the folder; a cancelled context), and the Spec clause `shutdown_durable` accepts what the model predicts
+    and rejects the observation the context-bound edit produces -/
+example : shutdownDurableFrom [] (modelTrace k09Ops (initSys 1)
+    [(0, .apply), (0, .snapBegin), (0, .apply), (0, .snapPersist), (0, .apply),
+     (0, Shut.shutEv Shut.Gen.shape .cancelled true), (0, .offline), (0, .restart), (0, .apply), (0, .shutdown), (0, .offline)]) = true := by
+  decide
+
+example : shutdownDurableFrom []
+    [ { rep := 0, ev := .apply, res := .ok, applied := 1, view := .pins (replay [Op.pin (pinCid 1)]), calls := [] },
+      { rep := 0, ev := .shutdown, res := .err, applied := 1, view := .down, calls := [] },
+      { rep := 0, ev := .offline, res := .ok, applied := 0, view := .pins [], calls := [] } ] = false := by
+  decide
 
 end CV.C01
